@@ -10,6 +10,7 @@ import (
 
 // AnteProfile generates signed-transaction histories for the ante engine.
 type anteG struct {
+	jailed    map[int]bool
 	r         *rng.R
 	ops       []string
 	height    int64
@@ -63,6 +64,11 @@ func GenerateAnte(r *rng.R, steps int) []string {
 		g.step()
 	}
 	for i := 0; i < int(2*g.vp)+2; i++ {
+		g.block()
+	}
+	if r.P(1, 3) {
+		// a price list in an order of governance's choosing is part of the state an export must carry as it is
+		g.emit("setprices %s", rng.Pick(r, []string{"uusdc:1,setl:0.0003", "uusdc:2,setl:0.0001", "uusdc:0.5,setl:0.00005"}))
 		g.block()
 	}
 	// the whole application exported and a fresh one started from the document (committed state: right after a block)
@@ -329,6 +335,24 @@ func (g *anteG) oracleTx() {
 		g.emit("sim signers=%s payer=- fee=- gas=200000 msgs=consent(v%d~%s)", st, v, st)
 		rs := g.roundStart()
 		g.tx("auto", "-", "-", 200000, fmt.Sprintf("prevote(%s~v%d~%s~%d)", st, v, e(VoteHash("sim", "-")), rs))
+		return
+	}
+	if r.P(1, 14) && len(g.jailed) < 2 {
+		// a validator is jailed by the staking module and leaves the active set; nobody may send oracle messages for it while it is
+		// out - not a stranger, not its former feeder, and the rules for its operator and feeder are the rules for everybody
+		v := r.N(world.NVal)
+		if g.jailed == nil {
+			g.jailed = map[int]bool{}
+		}
+		if !g.jailed[v] {
+			g.jailed[v] = true
+			g.emit("jail v%d", v)
+			g.block()
+		}
+		rs := g.roundStart()
+		for _, who := range []string{rng.Pick(r, accs[5:]), g.who(v), fmt.Sprintf("o%d", v)} {
+			g.tx("auto", "-", "-", 200000, fmt.Sprintf("prevote(%s~v%d~%s~%d)", who, v, e(VoteHash("j", "-")), rs))
+		}
 		return
 	}
 	if r.P(1, 12) {
